@@ -22,6 +22,7 @@ import sys
 
 LINE = re.compile(r"^(\d+)\s+(.*)$")
 CALL = re.compile(r"^([a-z0-9_]+)\((.*)\)\s+= (-?\d+|\?)(?:\s+(E[A-Z]+).*)?$", re.S)
+FORK = re.compile(r"^(clone3?|fork|vfork)\(")
 SMALL = 512
 
 
@@ -114,6 +115,10 @@ def read_calls(path):
                     pending[pid] = None
                 else:
                     pending[pid] = head
+                    if FORK.match(head) and "CLONE_THREAD" not in head:
+                        # the child of a fork may be logged before the parent's
+                        # return value is: announce it at entry
+                        yield ln, pid, "@fork-entry", [], 0, None
                 continue
             r = re.match(r"^<\.\.\. ([a-z0-9_]+) resumed>\s*(.*)$", rest, re.S)
             if r:
@@ -136,6 +141,7 @@ class Seg:
         self.ro_opens = 0
         self.syscalls = 0
         self.first_line = None
+        self.tids = set()      # threads that contributed an operation
 
 
 def parse(trace, root):
@@ -160,13 +166,45 @@ def parse(trace, root):
             base = None
         return os.path.normpath(os.path.join(base[0], p)) if base else None
 
+    # Threads share one descriptor table: every thread id is attributed to the
+    # traced test process unless it is known to be a forked child (a process
+    # of its own, with a copy of the table): those are set aside, and a forked
+    # child that touches the traced root makes the case fail as unsupported.
+    foreign, known, forks_open = set(), set(), 0
     for ln, pid, name, a, ret, errno in read_calls(trace):
         ok = ret is not None and ret >= 0
+        if name == "@fork-entry":
+            forks_open += 1
+            known.add(pid)
+            continue
+        if pid not in known:
+            known.add(pid)
+            if forks_open > 0:
+                foreign.add(pid)
+        if name in ("clone", "clone3", "fork", "vfork"):
+            if "CLONE_THREAD" not in " ".join(a):
+                forks_open = max(0, forks_open - 1)
+                if ok and ret > 0:
+                    foreign.add(ret)
+                    known.add(ret)
+            elif ok and ret > 0:
+                known.add(ret)
+            continue
+        if name == "execve":
+            if ok and pid in known and len(known) > 1:
+                foreign.add(pid)
+            continue
+        if pid in foreign:
+            strs = [cstr(x)[0] for x in a if x.startswith('"')]
+            if cur is not None and any(inroot(resolve("AT_FDCWD", b)) for b in strs if b):
+                cur.unsupported.append("line %d: a forked process (%d) calls %s on a path below the traced root" % (ln, pid, name))
+            continue
 
         def emit(*op):
             if cur is not None:
                 cur.ops.append(op)
                 cur.syscalls += 1
+                cur.tids.add(pid)
 
         def unsupported(what):
             if cur is not None:
@@ -363,6 +401,19 @@ def python_verdict(ops, dst, boot_paths):
     return None
 
 
+def max_open_writers(ops):
+    """Largest number of files open for writing at the same time (distinct
+    descriptors): 2 or more means that two saves really overlapped."""
+    cur, best = set(), 0
+    for op in ops:
+        if op[0] == "O" and op[6]:
+            cur.add(op[1])
+            best = max(best, len(cur))
+        elif op[0] == "C":
+            cur.discard(op[1])
+    return best
+
+
 def build_case(seg, rec, root):
     dst = rec["dst"]
     versions = rec["versions"]
@@ -508,8 +559,11 @@ def main():
                 msgs.append(("save-error", "save %s of %s failed: %s" % (v.get("label"), rec["name"], v["err"])))
         cls = list(rec.get("classes") or [])
         cls.append("byte-mode" if bm else "chunk-mode")
+        mow = max_open_writers(seg.ops)
         if rec.get("unordered"):
             cls.append("concurrent-saves")
+            if mow >= 2:
+                cls.append("concurrent-overlap")
         if rec.get("reader_distinct", 0) > 1:
             cls.append("reader-saw-several-versions")
         if any(op[0] == "U" for op in seg.ops):
@@ -521,7 +575,8 @@ def main():
                 "tmpdir": os.path.relpath(rec.get("tmpdir") or a.root, a.root),
                 "paths": {os.path.relpath(p, a.root): n for p, n in rel.items()},
                 "reader_polls": rec.get("reader_polls"), "info": rec.get("info"),
-                "trace_lines_from": seg.first_line}
+                "trace_lines_from": seg.first_line, "max_open_writers": mow,
+                "threads": len(seg.tids)}
         ok = not msgs
         c = {"id": cid, "coq": coq, "key": hashlib.sha256(coq.encode()).hexdigest()[:16],
              "nontrivial": any(op[0] in ("R", "U", "W") for op in seg.ops), "classes": cls,
